@@ -238,4 +238,10 @@ func extractC17b(l *lean) {
 	}
 	l.def("resolveSigningKeyBody", "String", fmt.Sprintf("%q", rsk), rsk)
 	l.def("vcJwtKidIssuerTest", "String", fmt.Sprintf("%q", kidTest), kidTest)
+
+	xph := "MISSING"
+	if fd := funcDecl(jwxF, "ExtractProtectedHeaders"); fd != nil {
+		xph = c17Src(fd.Body)
+	}
+	l.def("extractProtectedHeadersBody", "String", fmt.Sprintf("%q", xph), xph)
 }
